@@ -489,12 +489,32 @@ func ruleDeclaredLengthLoops(c *Ctx, r *Report) {
 						continue
 					}
 					for _, pr := range [][2]ssa.Value{{bo.X, bo.Y}, {bo.Y, bo.X}} {
-						phi, isPhi := stripConv(pr[0]).(*ssa.Phi)
+						pv := stripConv(pr[0])
+						if b2, isB := pv.(*ssa.BinOp); isB && b2.Op == token.ADD {
+							// `offset+1 < len(data)`: a look-ahead on the same offset
+							if _, isC := constInt(b2.Y); isC {
+								pv = stripConv(b2.X)
+							}
+						}
+						phi, isPhi := pv.(*ssa.Phi)
 						call, isLen := pr[1].(*ssa.Call)
 						if !isPhi || !isLen || phi.Block() != l.header || calleeName(&call.Call) != "builtin:len" || !isByteSlice(call.Call.Args[0].Type()) || !l.invariant(call.Call.Args[0], 0) {
 							continue
 						}
+						// the test must be the loop's normal exit: leaving through it can end in success
+						exitOK := false
+						for _, su := range b.Succs {
+							if !l.blocks[su] && reachesSuccessReturn(su) {
+								exitOK = true
+							}
+						}
+						if !exitOK {
+							continue
+						}
 						for i, p := range l.header.Preds {
+							if k, isC := constInt(phi.Edges[i]); isC && k < 0 {
+								continue // a range loop's index (starts at -1): handled as case (c)
+							}
 							if !l.blocks[p] {
 								remaining = a.lenOf(call.Call.Args[0], 0).add(a.linOf(phi.Edges[i], 0), -1)
 								what = "len(" + shapeOf(call.Call.Args[0], 0) + ") - start offset"
@@ -614,6 +634,23 @@ func loopRunsToEmpty(l *natLoop, phi *ssa.Phi) bool {
 		call, isLen := pr[0].(*ssa.Call)
 		k, isC := constInt(pr[1])
 		if isLen && isC && k == 0 && calleeName(&call.Call) == "builtin:len" && call.Call.Args[0] == ssa.Value(phi) {
+			return true
+		}
+	}
+	return false
+}
+
+
+// reachesSuccessReturn: some return with a nil error (or a function without error result) is
+// reachable from b.
+func reachesSuccessReturn(b *ssa.BasicBlock) bool {
+	for blk := range reachableFrom(b) {
+		ret, ok := blk.Instrs[len(blk.Instrs)-1].(*ssa.Return)
+		if !ok {
+			continue
+		}
+		n := len(ret.Results)
+		if n == 0 || !isErrorType(ret.Results[n-1].Type()) || isNilConst(unspill(ret.Results[n-1])) {
 			return true
 		}
 	}
